@@ -114,9 +114,9 @@ func vuStatus(s contracts.V2ContractStatus) string {
 }
 
 type vuEntry struct {
-	c      contracts.V2Contract
-	db     []types.Hash256
-	cache  []types.Hash256
+	c     contracts.V2Contract
+	db    []types.Hash256
+	cache []types.Hash256
 }
 
 // look records status, lists and revision of a contract after the sector expiry of the current tip
@@ -370,6 +370,24 @@ func vuRun(t *testing.T, em *verifEmitter, id int, nsec int, refresh, confirm, p
 	}
 	if nc.Status == contracts.V2ContractStatusRejected {
 		w.em.Step(fmt.Sprintf("XReject %d", w.cN(newID)), "XO (ORes (Ok tt))")
+	}
+	// whatever became of the successor, the renewed predecessor refuses further revisions (C13): its
+	// roots were handed over when the renewal was negotiated.  Monitor only (nothing is recorded: the
+	// refusal changes no state).
+	if oc0, err := com.V2Contract(oldID); err == nil && oc0.RenewedTo == newID {
+		probe := oc0.V2FileContract
+		probe.RevisionNumber++
+		sh := cm.TipState().ContractSigHash(probe)
+		probe.HostSignature, probe.RenterSignature = hostKey.SignHash(sh), renterKey.SignHash(sh)
+		if err := com.ReviseV2Contract(oldID, probe, com.SectorRoots(oldID), proto4.Usage{}); err == nil {
+			em.Monitor("renewed-predecessor-accepts-revision", fmt.Sprintf("predecessor %d (renewed to %d, successor %v) accepted revision %d after the hand-over of its roots", w.cN(oldID), w.cN(newID), nc.Status, probe.RevisionNumber))
+		}
+		if st, unlock, err := com.LockV2Contract(oldID); err == nil {
+			if st.Revisable || !st.Renewed {
+				em.Monitor("renewed-predecessor-reports-revisable", fmt.Sprintf("after the successor became %v: Renewed=%v Revisable=%v", nc.Status, st.Renewed, st.Revisable))
+			}
+			unlock()
+		}
 	}
 	o, n = w.look(oldID), w.look(newID)
 	w.prune()
